@@ -32,11 +32,11 @@ func emit(v interface{}) {
 
 // Case is what the parent sends to the child.
 type Case struct {
-	ID  int            `json:"id"`
-	Op  string         `json:"op"`
-	URL string         `json:"url"`
-	P   map[string]int `json:"p"`
-	L   []int          `json:"l,omitempty"`
+	ID  int               `json:"id"`
+	Op  string            `json:"op"`
+	URL string            `json:"url"`
+	P   map[string]int    `json:"p"`
+	L   []int             `json:"l,omitempty"`
 	S   map[string]string `json:"s,omitempty"`
 }
 
